@@ -135,7 +135,13 @@ func (d *BasicDetector) Mark(normality bool) (State, error) {
 func (d *BasicDetector) Reset() {
 	d.mutex.Lock()
 	defer d.mutex.Unlock()
-	d.setState(StateOK, time.Now())
+	now := time.Now()
+	if d.state == StateOK {
+		// setState is a no-op for an unchanged state, the counters still have to be cleared
+		d.toNewGeneration(now)
+		return
+	}
+	d.setState(StateOK, now)
 }
 
 func (d *BasicDetector) onNormality(state State, now time.Time) {
